@@ -187,7 +187,26 @@ func TestVerifC07(t *testing.T) {
 				if len(sp) == 0 {
 					break
 				}
-				switch k := r.Intn(13); {
+				switch k := r.Intn(15); {
+				case k >= 13: // a data tick slightly ahead of a clock that stands just before an expiry instant (writer clock skew)
+					b := sp[r.Intn(len(sp))]
+					before0 := []time.Duration{time.Millisecond, time.Second, time.Minute, 9 * time.Minute}[r.Intn(4)]
+					target := b.end.Add(c.ttl).Add(-before0)
+					clock.Set(target)
+					ahead := before0 + []time.Duration{0, time.Millisecond, time.Second, 30 * time.Second}[r.Intn(4)]
+					if r.Intn(4) == 0 {
+						ahead = []time.Duration{time.Nanosecond, 10 * time.Minute, 10*time.Minute + time.Nanosecond, 11 * time.Minute}[r.Intn(4)]
+					}
+					c.hist = append(c.hist, fmt.Sprintf("clock=%s tick(clock%+v)", target.UTC().Format(time.RFC3339Nano), ahead))
+					boundary = true
+					c.checkVisibility()
+					before := v.spans()
+					v.db.latestTickTime.Store(0)
+					v.db.Tick(target.Add(ahead).UnixNano())
+					c.waitRotationIdle()
+					c.afterRetention(before, "tick-slightly-ahead")
+					c.checkVisibility()
+					s.Count("c07.ticks_slightly_ahead_of_the_clock", 1)
 				case k == 12: // restart, possibly with a re-timed segment interval (spans of existing segments must survive)
 					nr := IntervalRule{cf.interval.Unit, []int{1, 2, 3}[r.Intn(3)]}
 					c.hist = append(c.hist, "restart(interval="+ruleString(nr)+")")
@@ -216,7 +235,7 @@ func TestVerifC07(t *testing.T) {
 					c.afterRetention(before, "cron")
 					c.checkVisibility()
 				case k < 9: // a data tick: older than, equal to, or newer than the clock (future-dated data)
-					off := []time.Duration{-48 * time.Hour, -time.Hour, 0, time.Hour, c.ttl, 2 * c.ttl, 30 * 24 * time.Hour}[r.Intn(7)]
+					off := []time.Duration{-48 * time.Hour, -time.Hour, 0, time.Millisecond, 5 * time.Minute, 10 * time.Minute, time.Hour, c.ttl, 2 * c.ttl, 30 * 24 * time.Hour}[r.Intn(10)]
 					ts := clock.Now().Add(off)
 					c.hist = append(c.hist, fmt.Sprintf("tick(clock%+v)", off))
 					before := v.spans()
